@@ -64,6 +64,14 @@ def T(tag, *args):
     return t
 
 
+def ev_site(e):
+    """(body key, block) of the innermost site of an event term (store events carry the statement index as a trailing 1-tuple)"""
+    for x in reversed(e[4] or ()):
+        if isinstance(x, tuple) and len(x) == 2:
+            return x
+    return (None, None)
+
+
 def is_term(x):
     return isinstance(x, Term)
 
